@@ -22,7 +22,15 @@ const WAIT: Duration = Duration::from_secs(4);
 
 fn rt() -> &'static tokio::runtime::Runtime {
     static RT: OnceLock<tokio::runtime::Runtime> = OnceLock::new();
-    RT.get_or_init(|| tokio::runtime::Builder::new_multi_thread().worker_threads(12).enable_all().build().unwrap())
+    RT.get_or_init(|| {
+        let rt = tokio::runtime::Builder::new_multi_thread().worker_threads(12).enable_all().build().unwrap();
+        // A task parked at a probe point blocks its worker thread. tokio polls the i/o and timer
+        // drivers only from a worker that goes idle, so with the other workers asleep nothing would
+        // poll them: wake one worker every millisecond; it finds no work and parks on the drivers.
+        let h = rt.handle().clone();
+        std::thread::spawn(move || loop { h.spawn(async {}); std::thread::sleep(Duration::from_millis(1)); });
+        rt
+    })
 }
 
 // ---------------------------------------------------------------- the gate
